@@ -120,6 +120,9 @@ func expressible(bus *acmelib.Bus, pb lib.PBus) string {
 		if !identOK(m.Name) {
 			return "message-name"
 		}
+		if len(m.Sigs) == 0 && len(m.Receivers) > 0 {
+			return "receivers-without-signals" // DBC lists receivers per signal
+		}
 		if !textOK(m.Desc) {
 			return "quote-in-text"
 		}
@@ -427,7 +430,11 @@ func main() {
 		fmt.Fprintf(impl, "%s-proj %s\n", id, lib.TokBus(pb).String())
 		fs, text, pb2 := roundTrip(bus, pb)
 		if pb2 != nil {
-			fmt.Fprintf(impl, "%s %s\n", id, lib.TL(lib.TS("ok"), lib.TokBus(*pb2), lib.TLs(nil)).String())
+			empty := make([]lib.Tok, len(pb2.Msgs))
+			for k := range empty {
+				empty[k] = lib.TLs(nil)
+			}
+			fmt.Fprintf(impl, "%s %s\n", id, lib.TL(lib.TS("ok"), lib.TokBus(*pb2), lib.TLs(empty)).String())
 		} else {
 			fmt.Fprintf(impl, "%s ( s657272 )\n", id)
 		}
